@@ -104,8 +104,22 @@ def frac_v(tok: str) -> float:
 OPS = ("expoff", "expon", "poioff", "poion", "bernoff", "bernon", "berninh")
 
 
+def tdtype(case):
+    return torch.float32 if case.get("dtype") == "f32" else F64
+
+
 def make_inputs(case) -> torch.Tensor:
-    return torch.tensor(case["intens"], dtype=F64).reshape(case["shape"])
+    return torch.tensor(case["intens"], dtype=tdtype(case)).reshape(case["shape"])
+
+
+def make_gen(case) -> torch.Generator:
+    """generator of the case: seeded, then positioned by discarding `advance` uniform draws of the
+    case's dtype (uniform draws are consumed sequentially — checked in `find_positions`)."""
+    g = torch.Generator().manual_seed(case["seed"])
+    adv = int(case.get("advance", 0))
+    if adv > 0:
+        torch.rand(adv, dtype=tdtype(case), generator=g)
+    return g
 
 
 def build_module(case, g):
@@ -180,11 +194,13 @@ def replay_and_run(case):
     n = x.numel()
     rates = case["freq"] * x
     steps, dt, refrac, comp = effective_cfg(case)
-    g = torch.Generator().manual_seed(case["seed"])
+    g = make_gen(case)
+    udt = tdtype(case)
+    b32 = "32" if udt == torch.float32 else ""
     st0 = g.get_state()
     g2 = clone_gen(g)
     obs = {"err": None, "support_ok": True, "state_ok": True, "slices_ok": True, "repro_ok": True, "out": None}
-    meta = f"seed={case['seed']};api={case['api']};via={case.get('via', '-')}"
+    meta = f"seed={case['seed']};adv={case.get('advance', 0)};api={case['api']};via={case.get('via', '-')}"
     online = op in ("expon", "poion", "bernon")
     xs_tok = hxs(rates.reshape(-1).tolist())
 
@@ -231,15 +247,15 @@ def replay_and_run(case):
         line = f"poioff {steps} {xs_tok} {lists(cols, nats)} {meta}"
         finish_state()
     elif op == "bernoff":
-        u = torch.rand((steps,) + shape, dtype=F64, generator=g2)
+        u = torch.rand((steps,) + shape, dtype=udt, generator=g2)
         obs["support_ok"] = bool(((u >= 0) & (u < 1)).all())
-        line = f"bern {steps} {hx(dt)} {xs_tok} {lists(u.reshape(steps, n).tolist(), hxs)} {meta}"
+        line = f"bern{b32} {steps} {hx(dt)} {xs_tok} {lists(u.reshape(steps, n).tolist(), hxs)} {meta}"
         finish_state()
     elif op == "berninh":
-        u = torch.rand(shape, dtype=F64, generator=g2)
+        u = torch.rand(shape, dtype=udt, generator=g2)
         obs["support_ok"] = bool(((u >= 0) & (u < 1)).all())
         T = shape[0]
-        line = f"berninh {hx(dt)} {lists(rates.reshape(T, -1).tolist(), hxs)} {lists(u.reshape(T, -1).tolist(), hxs)} {meta}"
+        line = f"berninh{b32} {hx(dt)} {lists(rates.reshape(T, -1).tolist(), hxs)} {lists(u.reshape(T, -1).tolist(), hxs)} {meta}"
         finish_state()
     else:
         # online: initial draw, then one draw per step whose size is the number of real spikes
@@ -267,7 +283,7 @@ def replay_and_run(case):
                 except Exception as e:
                     obs["err"] = type(e).__name__
             if op == "bernon":
-                u = torch.rand(shape, dtype=F64, generator=g2)
+                u = torch.rand(shape, dtype=udt, generator=g2)
                 obs["support_ok"] &= bool(((u >= 0) & (u < 1)).all())
                 freshs.append(u.reshape(-1).tolist())
             elif sp is None:
@@ -309,7 +325,7 @@ def replay_and_run(case):
         elif op == "poion":
             line = f"poion {steps} {xs_tok} {s0tok} {lists(freshs, nats)} {meta}"
         else:
-            line = f"bern {steps} {hx(dt)} {xs_tok} {lists(freshs, hxs)} {meta}"
+            line = f"bern{b32} {steps} {hx(dt)} {xs_tok} {lists(freshs, hxs)} {meta}"
     obs["line"] = line
     obs["out"] = out
     # reproducibility: the same generator state gives the same spikes
@@ -417,6 +433,19 @@ def judge(case, obs, resp, ex: Exploration):
                                 add("spec", "gap", f"inferno.isi reports a minimum inter-spike interval of {mn} steps < required {g}")
                     except Exception as e:
                         ex.count("isi_errors", type(e).__name__)
+            # partial (float): nominal demand round(refrac/dt) for non-representable dt (the quotient of the doubles
+            # can sit one ulp below the integer; the theorem-backed demand above is its floor)
+            ng = case.get("nominal_gap")
+            if ng and op in ("expoff", "expon") and tuple(real.shape) == exp_shape and not any(f.key.endswith(":gap") for f in out):
+                flat = real.reshape(real.shape[0], -1)
+                for i in range(flat.shape[1]):
+                    ts = spike_times(flat[:, i].tolist())
+                    bad = [(a, b) for a, b in zip(ts, ts[1:]) if b - a < ng]
+                    if bad:
+                        add("spec", "gap-nominal", f"element {i} fired at steps {bad[0][0]} and {bad[0][1]}: distance {bad[0][1] - bad[0][0]} < "
+                            f"round(refrac/dt) = {ng} (refrac={case['refrac']!r}, dt={case['dt']!r}; partial (float) demand)")
+                        break
+                ex.count("nominal_gap_demand", f"{ng} (floor-of-doubles demand {gap})")
             if not obs["repro_ok"]:
                 add("spec", "repro", "a second run from the same generator state gave a different spike train")
     # ---- code vs code-shaped model
@@ -535,6 +564,99 @@ def boundary_cases():
             for via in ("ctor", "setters"):
                 mods.append({**c, "api": "mod", "via": via, "order": ["dt", "steps", "refrac", "frequency"]})
     return out + mods[::3]
+
+
+# ---- Bernoulli strictness probes: generator states whose next uniform sample is a boundary value
+
+_POS = {}
+
+
+def find_positions():
+    """Deterministic search (fixed seeds, independent of VERIF_SEED) for generator positions at which the
+    next uniform draw is (a) exactly 0.0 in float32 (probability 2^-24 per draw; float64 would need 2^53
+    draws) and (b) a value u0 in (0, 2^-10), for which the rate 1000*u0 and the probability
+    (1000*u0/1000)*1 == u0 are exact in float32 and float64 alike.  Also checks that uniform draws are
+    consumed sequentially (a big draw equals two consecutive smaller ones)."""
+    if _POS:
+        return _POS
+    g = torch.Generator().manual_seed(1)
+    a = torch.rand(4096, dtype=torch.float32, generator=g)
+    g = torch.Generator().manual_seed(1)
+    b = torch.cat([torch.rand(1000, dtype=torch.float32, generator=g), torch.rand(3096, dtype=torch.float32, generator=g)])
+    _POS["sequential"] = bool(torch.equal(a, b))
+    for seed in range(12):
+        g = torch.Generator().manual_seed(seed)
+        a = torch.rand(2 ** 25, dtype=torch.float32, generator=g)
+        z = (a == 0).nonzero().reshape(-1)
+        z = z[z > 4096]
+        if z.numel() > 0:
+            _POS["f32zero"] = (seed, int(z[0]))
+            break
+    for name, dt_ in (("f32small", torch.float32), ("f64small", F64)):
+        g = torch.Generator().manual_seed(5)
+        a = torch.rand(2 ** 16, dtype=dt_, generator=g)
+        idx = ((a > 0) & (a < 2.0 ** -10)).nonzero().reshape(-1)
+        idx = idx[idx > 4096]
+        _POS[name] = (5, int(idx[0]), float(a[idx[0]]))
+    return _POS
+
+
+def probe_cases():
+    """zero probe: a silent element receives the sample 0.0 (must stay silent: `u < p` is strict);
+    equality probe: an element with probability exactly u0 receives the sample u0 (must not fire)."""
+    pos = find_positions()
+    out = []
+    n, steps = 3, 4
+    combos = [("bernoff", "fn"), ("bernon", "fn"), ("bernoff", "mod"), ("bernon", "mod"), ("berninh", "fn")]
+    for op, api in combos:
+        for (t, i) in ((0, 0), (2, 1), (3, 2)):
+            j = t * n + i
+            shape = [n] if op != "berninh" else [steps, n]
+            numel_ = n if op != "berninh" else steps * n
+            if "f32zero" in pos:
+                seed, k = pos["f32zero"]
+                intens = [0.5 + 0.01 * q for q in range(numel_)]
+                if op == "berninh":
+                    intens[j] = 0.0
+                else:
+                    intens[i] = 0.0
+                out.append({"op": op, "api": api, "seed": seed, "advance": k - j, "dtype": "f32", "steps": steps, "dt": 1.0,
+                            "freq": 400.0, "shape": shape, "intens": intens, "via": "ctor", "probe": f"zero-sample at step {t} element {i}"})
+            for name, dts in (("f32small", "f32"), ("f64small", "f64")):
+                seed, k, u0 = pos[name]
+                intens = [0.0] * numel_
+                if op == "berninh":
+                    intens[j] = 1000.0 * u0
+                else:
+                    intens[i] = 1000.0 * u0
+                out.append({"op": op, "api": api, "seed": seed, "advance": k - j, "dtype": dts, "steps": steps, "dt": 1.0,
+                            "freq": 1.0, "shape": shape, "intens": intens, "via": "ctor", "probe": f"sample == probability {u0!r} at step {t} element {i}"})
+    return out
+
+
+# ---- non-representable step times: nominal gap demand round(refrac/dt)  (partial: float)
+
+def gen_nonrep_gap_case(rng, op, api):
+    dt = rng.choice([0.1, 0.2, 0.3])
+    n = rng.choice([2, 3, 5, 10])
+    refrac = n * dt if rng.random() < 0.5 else round(n * dt, 10)      # the product, or the decimal a user would type
+    comp = rng.random() < 0.5
+    if comp:
+        freq = float(int(rng.choice([0.5, 0.8, 0.95]) * 1000.0 / refrac))
+    else:
+        freq = rng.choice([1000.0, 3000.0, 9000.0])
+    shape = rng.choice([(1,), (3,), (2, 2)])
+    intens = [1.0 if rng.random() < 0.7 else rng.random() for _ in range(numel(shape))]
+    if rng.random() < 0.3:
+        intens[rng.randrange(len(intens))] = 0.0
+    case = {"op": op, "api": api, "seed": rng.randrange(2 ** 31), "steps": rng.choice([20, 40, 60]), "dt": dt, "shape": list(shape),
+            "refrac": refrac, "comp": comp, "freq": freq, "intens": intens, "nominal_gap": n}
+    if api == "mod":
+        case["via"] = rng.choice(["ctor", "setters"])
+        order = ["steps", "dt", "frequency", "refrac"]
+        rng.shuffle(order)
+        case["order"] = order
+    return case
 
 
 # ---- attempts to reach an incompatible configuration through the modules (must be rejected)
@@ -759,6 +881,9 @@ def run_encoder_cases(ctx, cases, ex: Exploration, max_findings=10):
             ex.count("refrac", rk)
             ex.count("compensate", str(c["comp"]))
         ex.count("elements", str(numel(c["shape"])))
+        ex.count("dtype", c.get("dtype", "f64"))
+        if c.get("probe"):
+            ex.count("probes", c["probe"].split(" at ")[0].split(" 0.")[0])
         if o["err"]:
             ex.count("real_errors", o["err"])
         out = o["out"]
@@ -793,6 +918,25 @@ def explore(ctx) -> Exploration:
     cases += nonrep
     excluded = [gen_case(rng, op, "fn", region="excluded") for op in ("expoff", "expon") for _ in range(per // 4)]
     cases += excluded
+    # float32 Bernoulli stream (torch.bernoulli draws uniforms of the probability tensor's dtype)
+    f32 = []
+    for op in ("bernoff", "bernon", "berninh"):
+        for api in ("fn", "mod"):
+            if op == "berninh" and api == "mod":
+                continue
+            for _ in range(per // 4):
+                c = gen_case(rng, op, api)
+                c["dtype"] = "f32"
+                f32.append(c)
+    cases += f32
+    probes = probe_cases()
+    cases += probes
+    ex.extra["bernoulli_probe_positions"] = {k: v for k, v in find_positions().items()}
+    if not find_positions().get("sequential") or "f32zero" not in find_positions():
+        ex.findings.append(Finding(kind="model", key="C19:model:bernoulli:probe-setup", what="uniform draws are not consumed sequentially / no zero sample found: strictness probes unavailable",
+                                   case={"positions": dict(find_positions())}))
+    nominal = [gen_nonrep_gap_case(rng, op, api) for op in ("expoff", "expon") for api in ("fn", "mod") for _ in range(per // 4)]
+    cases += nominal
     obs = run_encoder_cases(ctx, cases, ex)
 
     # modules must reject frequency * refrac >= 1000 under compensation on every path
@@ -826,7 +970,8 @@ def explore(ctx) -> Exploration:
                "and constructor/setter sequences (exhaustive constructor grid, every single setter from four base states, random sequences) compared with the configuration machine after every call")
     ex.samples = [obs[0]["line"][:300], obs[nb]["line"][:300] if len(obs) > nb else "", ecases[-1]]
     ex.extra["streams"] = {"boundary": nb, "random_valid": len(cases) - nb - len(nonrep) - len(excluded), "non_representable": len(nonrep),
-                           "excluded_region": len(excluded), "incompatible_attempts": len(attempts), "config_sequences": len(ecases)}
+                           "excluded_region": len(excluded), "bernoulli_float32": len(f32), "bernoulli_strictness_probes": len(probes),
+                           "non_representable_nominal_gap": len(nominal), "incompatible_attempts": len(attempts), "config_sequences": len(ecases)}
     ex.extra["observation"] = ("poisson_interval (offline) always fires every non-silent element at the last step (clamp_max(steps) into steps+2 rows, "
                                "then res[1:-1]); modelled faithfully, proved as poisson_last_step_fires; not a clause of C19")
     return ex
